@@ -1052,8 +1052,11 @@ func setChild(md map[uint32]*metadataEntry, pb *bolt.Bucket, pid uint32, base st
 	if md[pid].children == nil {
 		md[pid].children = make(map[string]childEntry)
 	}
+	prev, existed := md[pid].children[base]
 	md[pid].children[base] = childEntry{base, id}
-	if isDir {
+	if isDir && !(existed && prev.id == id) {
+		// A directory that is listed again (or listed after it was created
+		// implicitly) reuses its node and is still one subdirectory.
 		numLink, _ := binary.Varint(pb.Get(bucketKeyNumLink))
 		if err := putInt(pb, bucketKeyNumLink, numLink+1); err != nil {
 			return fmt.Errorf("cannot add numlink for children: %w", err)
